@@ -1,6 +1,6 @@
 \* C02, quick tier. Object values deviate from the base object in <= 2 fields (Devs = 2).
 \* One run checks the theorems on every case and prints shapes + grid + cases (-workers 1).
-\* Measured: see /verif/notes/C02.md
+\* Measured: 10,998 cases, 21,996 distinct states, depth 2; 1 worker 13-20 s.
 CONSTANTS
   Devs = 2
   Emit = TRUE
